@@ -424,7 +424,10 @@ def topo_case(draw, shard, tier):
     parent = PARENTS[(draw(st.integers(0, 5)) + shard) % 6]
     redef, mask = draw(redefinition(shard, site, parent))
     return dict(shard=shard, site=site, other=other, date=draw(date(shard)), redef=redef, mask=mask, parent=parent,
-                targets=draw(st.lists(target(other is not None), min_size=1, max_size=24)))
+                targets=draw(st.lists(target(other is not None), min_size=1, max_size=24)),
+                # is the second station used in the ordinary way (an Earth-fixed point seen from it) BEFORE states given
+                # in its axes are handed over to the first one?  (it always is afterwards)
+                other_first=draw(st.booleans()))
 
 
 @st.composite
@@ -854,6 +857,21 @@ def check_topocentric(case):
         cls.append("two-stations")
     cls.append(f"parent:{case.get('parent', 'ITRF')}")
     nt = False
+
+    def ordinary_use_of_other(when):
+        from beyond.orbits import StateVector
+
+        s2, tri2 = site_of(other["lat"], other["lon"], other["alt"])
+        e2, n2, u2 = tri2
+        p2 = s2 + 8e5 * u2 + 1e5 * n2 - 5e4 * e2
+        v2 = np.array([10.0, -20.0, 30.0])
+        sph2 = StateVector(list(p2) + list(v2), dt, "cartesian", "ITRF").copy(frame=other_fr, form="spherical")
+        return compare_topo(sph2.base, s2, tri2, p2, v2, f"an ITRF point seen from the second station ({when} states given in "
+                            f"its axes were handed to the first one)", 1.0)[0]
+
+    if other and case.get("other_first"):
+        worst = max(worst, ordinary_use_of_other("before"))
+        cls.append("second-station-used-first")
     for k, t in enumerate(case["targets"]):
         if t["kind"] == "station" and other is None:
             continue
@@ -874,6 +892,8 @@ def check_topocentric(case):
         cls += labels + sky_classes(az, el, rng)
         if abs(g["lat"]) > 1.0 and abs(el) < HALF_PI - 1.7e-3:
             nt = True
+    if other:
+        worst = max(worst, ordinary_use_of_other("after"))
     return dict(nt=nt, cls=cls, ratio=worst)
 
 
